@@ -210,7 +210,7 @@ CLAIMS.update({
      'Programs built only from operations a C++ toolchain rounds correctly are generated as source text (double and float contexts under '
      'the four hardware rounding modes, nested with-blocks, branches, range / list / while loops, tuples, lists handed to helpers that write '
      'to them), compiled by the real CppCompiler under several option sets (optimize, unbox NEVER / ALLOW / STRICT, static arrays), built with '
-     'g++ -O1 -frounding-math with the driver the repository\'s own test infrastructure emits, and run on argument vectors with zeros, a '
+     'g++ -O0 with the driver the repository\'s own test infrastructure emits, and run on argument vectors with zeros, a '
      'subnormal, infinities and NaN. spec/Agree.tla decides every (interpreter, compiled) pair: same shape, lengths, booleans and number bits '
      '(sign of zero counts, NaN agrees with NaN; wide numbers travel as tokens). Runs whose values stay inside the machine\'s domain are also '
      'judged by MCMachine!Judge against the machine run of the real AST.'),
